@@ -198,7 +198,16 @@ def r5_identifier(cx):
         ok = ok and w is not None and "open(%s, 'r')" % dest in U(w.items[0].context_expr)
     cx.require(ok, rd[0] if rd else fn, "an existing identifier file is read (read-only) unless a new identifier was requested", construct=short(rd[0]) if rd else "(none)")
     rets = [r for r in walk_body(fn.body) if isinstance(r, ast.Return)]
-    ok = bool(rets) and all(U(r.value) == "str(uuid.UUID(str(machine_id).strip(), version=4))" for r in rets)
+    def _canonical(v):
+        # str(uuid.UUID(str(machine_id).strip(), version=4)), possibly through single-assignment temporaries
+        if not (isinstance(v, ast.Call) and call_name(v) == "str" and len(v.args) == 1):
+            return False
+        u = trace(v.args[0], fn) if isinstance(v.args[0], ast.Name) else v.args[0]
+        if not (isinstance(u, ast.Call) and call_name(u) == "uuid.UUID" and len(u.args) == 1 and kwarg(u, "version") is not None and U(kwarg(u, "version")) == "4"):
+            return False
+        a0 = trace(u.args[0], fn) if isinstance(u.args[0], ast.Name) else u.args[0]
+        return U(a0) == "str(machine_id).strip()"
+    ok = bool(rets) and all(_canonical(r.value) for r in rets)
     cx.require(ok, rets[0] if rets else fn, "every return canonicalises through uuid.UUID(..., version=4)", construct=" | ".join(U(r.value) for r in rets))
     tr = enclosing(rets[0], ast.Try) if rets else None
     ok = tr is not None and all(any(isinstance(s, ast.Expr) and isinstance(s.value, ast.Call) and call_name(s.value) == "sys.exit" for s in h.body) for h in tr.handlers) and tr is fn.body[-1]
